@@ -202,5 +202,52 @@ def c06_restart(victim, free, fixed=None, restart_delays=(0, 300, 5600), planted
     return scenario
 
 
+# ------------------------------------------------------------------------------------------------ C08: exit propagation through a pipeline
+
+def c08_pipeline(topo, free, fixed=None, planted=None, max_steps=3000):
+    POL = ['all', 'clean', 'error', 'none']
+    FL = {'all': 3, 'clean': 1, 'error': 2, 'none': 0}
+    def scenario(e):
+        T = dict(fixed or {})
+        for k, (lo, hi) in free.items(): T[k] = e.fresh_int(k, lo, hi)
+        kind = ['exit', 'error'][e.choice('kind', 2)]
+        prop = POL[e.choice('prop', 4)]; obey = POL[e.choice('obey', 4)]
+        p = Pipeline(e, max_steps=max_steps, horizon=2500)
+        p.net.delay_fn = lambda a, b: T.get('d', 10)
+        kw = dict(prop_exit=prop, obey_exit=obey)
+        if topo == 'chain':
+            p.add('A', outputs='tcp://*:5550', source_frames=2, outputs_required='B', at_end=kind, **kw)
+            p.add('B', sources='tcp://localhost:5550', outputs='tcp://*:5552', behave=passf, outputs_required='C', proc_time=T.get('pB', 0), **kw)
+            p.add('C', sources='tcp://localhost:5552', behave=lambda s, f: None, **kw)
+            others = ['B', 'C']
+        else:   # tee + rejoin: A -> B, A -> C, D joins B and C
+            p.add('A', outputs='tcp://*:5550', source_frames=2, outputs_required='B, C', at_end=kind, **kw)
+            p.add('B', sources='tcp://localhost:5550', outputs='tcp://*:5552', behave=passf, outputs_required='D', proc_time=T.get('pB', 0), **kw)
+            p.add('C', sources='tcp://localhost:5550', outputs='tcp://*:5554', behave=lambda s, f: {'side': f['main']}, outputs_required='D', **kw)
+            p.add('D', sources='tcp://localhost:5552, tcp://localhost:5554', behave=lambda s, f: None, **kw)
+            others = ['B', 'C', 'D']
+        p.net.stop_when = lambda: 'A' in p.ended and all(o in p.ended for o in others)
+        p.run()
+        if p.errors: raise HarnessError(f'filter thread failed: {p.errors}')
+        e.observed(f'{kind}')
+        e.path_info.update(ended=dict(p.ended), kind=kind, prop=prop, obey=obey)
+        if planted: e.fail('planted', 'twin', {'kind': 'planted'})
+        flag = 2 if kind == 'error' else 1
+        ctx = f'{topo}: source ends by {kind}, every filter prop_exit={prop} obey_exit={obey} (timing {T}); ended: {p.ended}, lifecycle {p.lifecycle}'
+        if 'A' not in p.ended: e.fail('source-never-ends', ctx, {'kind': 'source-never-ends'})
+        if p.ended['A'] != ('raised:RuntimeError' if kind == 'error' else 'returned'): e.fail('source-return', ctx, {'kind': 'source-return'})
+        matching = bool(FL[prop] & flag) and bool(FL[obey] & flag)
+        for o in others:
+            if matching:
+                if o not in p.ended:
+                    e.fail('pipeline-does-not-terminate', f'{ctx}: filter {o} is still running at virtual time 2500 ms although the policies match', {'kind': 'pipeline-does-not-terminate', 'exit_kind': kind})
+                if p.ended[o] != 'returned': e.fail('neighbour-raises', f'{ctx}: filter {o} ended with {p.ended[o]}', {'kind': 'neighbour-raises'})
+            elif not (FL[obey] & flag) and o in p.ended and not (FL[obey] & (3 - flag)):
+                e.fail('obeyed-against-policy', f'{ctx}: filter {o} ended although its obey policy ignores {kind} exits', {'kind': 'obeyed-against-policy'})
+        for n, lc in p.lifecycle.items():
+            if n in p.ended and lc.count('shutdown') != (1 if 'setup' in lc else 0): e.fail('shutdown-count', f'{ctx}: {n} lifecycle {lc}', {'kind': 'shutdown-count'})
+    return scenario
+
+
 def H(name, scen, bounds, twin=None, budget=900):
     return Harness(name, scen, twin=twin, bounds=bounds, functions=FN, stubs=STUBS, assumptions=ASSUME, budget_s=budget, expand=64, chunk_paths=60)
